@@ -30,6 +30,7 @@ type judge struct {
 	tieBudget                                                      int
 	tParse, tCheck, tTie                                           time.Duration
 	sampled                                                        [2]bool
+	observe                                                        func(caseResult) // optional: sees every result (layout table)
 }
 
 func newJudge(c *core.Ctx) *judge {
@@ -74,6 +75,9 @@ func (j *judge) run(cases []tcase) {
 	nOutside := 0
 	for i, r := range results {
 		c.Hist(r.tc.family + " -> " + r.status)
+		if j.observe != nil {
+			j.observe(r)
+		}
 		if r.dur > j.maxDur {
 			j.maxDur, j.maxDurLen = r.dur, len(r.tc.src)
 		}
@@ -204,7 +208,7 @@ func (j *judge) run(cases []tcase) {
 			continue
 		}
 		if !(strings.HasPrefix(r.tc.family, "repository") || strings.HasPrefix(r.tc.family, "hand") || strings.HasPrefix(r.tc.family, "preserving") ||
-			strings.HasPrefix(r.tc.family, "parser test") || strings.HasPrefix(r.tc.family, "coverage")) {
+			strings.HasPrefix(r.tc.family, "parser test") || strings.HasPrefix(r.tc.family, "coverage") || strings.HasPrefix(r.tc.family, "keyword layout")) {
 			continue
 		}
 		src := r.tc.src
@@ -412,6 +416,13 @@ func sweep(c *core.Ctx, extra []tcase) {
 	for _, b := range base {
 		add(b)
 	}
+	// keyword layouts, one slot at a time with every separator (exhaustive, consumes no randomness, minimal inputs first)
+	lcases, linfo := layoutExhaustive(c)
+	ltab := &layoutTable{info: linfo, accepted: map[string][]string{}, rejected: map[string]int{}}
+	j.observe = ltab.observe
+	for _, lc := range lcases {
+		add(lc)
+	}
 	for _, e := range extra {
 		add(e)
 	}
@@ -488,7 +499,15 @@ func sweep(c *core.Ctx, extra []tcase) {
 		}
 		add(tcase{"random bytes", s})
 	}
+	// keyword layouts at random: several forms per file, and the blanks of the repository's own templates
+	for i := c.N(7000, 150000); i > 0; i-- {
+		add(layoutRandom(c, c.Rng))
+	}
+	for i := c.N(7000, 150000); i > 0; i-- {
+		add(layoutRepo(c, c.Rng, whole))
+	}
 	flush(true)
+	c.Extra["keyword_layouts"] = ltab.extra()
 	restore()
 
 	// attribute backwards moves to inputs by a sequential re-run
